@@ -585,8 +585,9 @@ func Concretize(hist []string) string {
 			} else {
 				replaceIdent("if")
 			}
-		case "#litend":
-			if strings.Contains(string(s), "{{literal") {
+		case "#litend", "#litother":
+			dbl := strings.LastIndex(string(s), "{{literal") >= 0 && strings.LastIndex(string(s), "{{literal")+1 == strings.LastIndex(string(s), "{literal")
+			if dbl == (h == "#litend") {
 				s = append(s, "{{/literal}}"...)
 			} else {
 				s = append(s, "{/literal}"...)
